@@ -218,19 +218,19 @@ def gen_history(rng, it, n, malformed=False):
     ops, ms = [], it["methods"]
     for m in ms:                       # most mocks start configured
         if rng.random() < 0.7:
-            ops.append(gen_set(rng, m))
+            ops.append(gen_set(rng, m, ms))
     while len(ops) < n:
         m = rng.choice(ms)
         r = rng.random()
         if malformed and r < 0.08:
             ops.append(rng.choice([{"op": "call", "m": "Zz", "fixed": [], "var": "none", "elems": [], "nilslice": False},
                                    {"op": "calls", "m": "Zz"}, {"op": "resetm", "m": "Zz"},
-                                   {"op": "set", "m": "Zz", "beh": "nil", "res": []},
+                                   {"op": "set", "m": "Zz", "beh": "nil", "res": [], "nested": []},
                                    dict(gen_call(rng, m), fixed=[1] * (len(m["params"]) + 1))]))
         elif r < 0.5:
             ops.append(gen_call(rng, m))
         elif r < 0.68:
-            ops.append(gen_set(rng, m))
+            ops.append(gen_set(rng, m, ms))
         elif r < 0.86:
             ops.append({"op": "calls", "m": m["name"]})
         elif r < 0.94:
@@ -240,13 +240,33 @@ def gen_history(rng, it, n, malformed=False):
     return ops
 
 
-def gen_set(rng, m):
+def gen_nested(rng, m, ms):
+    """Operations a user function performs on the mock while it is serving a call of m."""
+    out = []
+    for _ in range(rng.choice([1, 1, 2, 3])):
+        t = m if rng.random() < 0.6 else rng.choice(ms)      # mostly the method being served (re-entrancy)
+        r = rng.random()
+        if r < 0.4:
+            out.append({"op": "calls", "m": t["name"]})
+        elif r < 0.65:
+            out.append(gen_call(rng, t))
+        elif r < 0.85:
+            out.append({"op": "resetm", "m": t["name"]})
+        else:
+            out.append({"op": "resetall"})
+    return out
+
+
+def gen_set(rng, m, ms=None):
     r = rng.random()
     if r < 0.22:
-        return {"op": "set", "m": m["name"], "beh": "nil", "res": []}
+        return {"op": "set", "m": m["name"], "beh": "nil", "res": [], "nested": []}
+    nested = gen_nested(rng, m, ms) if ms and rng.random() < 0.4 else []
+    # nested calls recurse for ever unless the function is of the "only on the first attempt" kind
+    first = bool(nested) and rng.random() < (0.85 if any(x["op"] == "call" for x in nested) else 0.3)
     if r < 0.32:
-        return {"op": "set", "m": m["name"], "beh": "panic", "res": []}
-    return {"op": "set", "m": m["name"], "beh": "const", "res": [gen_tok(rng, x["max"]) for x in m["results"]]}
+        return {"op": "set", "m": m["name"], "beh": "panic", "res": [], "nested": nested, "first": first}
+    return {"op": "set", "m": m["name"], "beh": "const", "res": [gen_tok(rng, x["max"]) for x in m["results"]], "nested": nested, "first": first}
 
 
 def gen_call(rng, m):
@@ -267,8 +287,9 @@ def gen_call(rng, m):
 
 
 # ---------------------------------------------------------------- implementation
-def run_impl(binary, jobs):
-    p = run([binary], inp=json.dumps(jobs).encode(), timeout=600)
+def run_impl(binary, jobs, watchdog_ms=None):
+    env = dict(os.environ, DRV_WATCHDOG_MS=str(watchdog_ms)) if watchdog_ms else None
+    p = run([binary], inp=json.dumps(jobs).encode(), timeout=600, env=env)
     if p.returncode != 0:
         raise RuntimeError("drv_matryer failed: " + p.stderr.decode(errors="replace")[-2000:])
     return json.loads(p.stdout)
@@ -289,71 +310,115 @@ def packed(m, op):
 
 
 # ---------------------------------------------------------------- oracle: the property text on the observed trace
+FUEL = 3          # Harness/C04.v FUEL, drv_matryer FUEL
+
+
+class OutOfFuel(Exception):
+    pass
+
+
+class Expect:
+    """What the property text says must be observed, step by step: per method the function stored by the
+    test and the argument tuples of the calls made since the last reset.  A running user function may itself
+    read Calls(), call methods and reset (its "nested" list); those act on the same bookkeeping, the record of
+    the running call being there already."""
+
+    def __init__(self, pkg, it):
+        self.ms = {m["name"]: m for m in it["methods"]}
+        self.stub, self.resets = pkg["opts"]["stub-impl"], pkg["opts"]["with-resets"]
+        self.func = {n: None for n in self.ms}
+        self.made = {n: [] for n in self.ms}
+
+    def op(self, op, fuel, seen):
+        k, m = op["op"], self.ms.get(op.get("m"))
+        if k != "resetall" and m is None:
+            return {"k": "nomethod"}
+        if k == "set":
+            self.func[m["name"]] = op if op["beh"] != "nil" else None
+            return {"k": "unit"}
+        if k == "calls":
+            return {"k": "records", "tuples": [list(t) for t in self.made[m["name"]]], "method": m}
+        if k in ("resetm", "resetall"):
+            if not self.resets:
+                return {"k": "nomethod"}
+            for n in (self.ms if k == "resetall" else [m["name"]]):
+                self.made[n] = []
+            return {"k": "unit"}
+        # a call
+        if fuel == 0:
+            raise OutOfFuel()
+        vals = packed(m, op)
+        if vals is None:
+            return {"k": "illtyped"}
+        f = self.func[m["name"]]
+        if f is None and not self.stub:
+            return {"k": "panic", "names": m["name"] + "Func"}     # before anything is recorded (mock_matryer.templ:95-97)
+        self.made[m["name"]].append(vals)
+        if f is None:
+            return {"k": "ret", "res": [0] * len(m["results"])}
+        seen.append({"m": m["name"], "args": vals})
+        todo = f.get("nested") or []
+        if f.get("first"):
+            x = self.op({"op": "calls", "m": m["name"]}, fuel - 1, seen)
+            seen.append({"nested": x})
+            if len(x["tuples"]) != 1:
+                todo = []
+        for nop in todo:
+            x = self.op(nop, fuel - 1, seen)
+            seen.append({"nested": x})
+        return {"k": "panicuser"} if f["beh"] == "panic" else {"k": "ret", "res": list(f["res"])}
+
+
+def same_out(exp, got, where, errs):
+    """Compare one expected outcome with the observed one."""
+    k = got["k"]
+    if exp["k"] != k:
+        errs.append("%s: expected %s, observed %s%s" % (where, exp["k"], k, " (the operation never returned)" if k == "deadlock" else ""))
+        return
+    if k == "panic" and exp["names"] not in got.get("msg", ""):
+        errs.append("%s: the nil-function panic must name %s, message %r" % (where, exp["names"], got.get("msg")))
+    if k == "ret" and (got.get("res") or []) != exp["res"]:
+        errs.append("%s: returned %r, expected %r" % (where, got.get("res"), exp["res"]))
+    if k == "records":
+        tuples = [[f["v"] for f in rec] for rec in got["l"]]
+        if tuples != exp["tuples"]:
+            errs.append("%s: Calls() = %r, calls made since the last reset: %r" % (where, tuples, exp["tuples"]))
+        m = exp["method"]
+        want = [exported(p["name"]) if p["name"] not in (None, "_") and p["name"] == r else None for p, r in zip(m["params"], m["resolved"])]
+        for rec in got["l"]:
+            for f, w in zip(rec, want):
+                if w is not None and f["f"] != w:
+                    errs.append("%s: field %r for parameter whose exported name is %r" % (where, f["f"], w))
+
+
 def oracle(pkg, it, hist, outs):
     errs = []
-    ms = {m["name"]: m for m in it["methods"]}
-    func = {n: None for n in ms}           # what the test stored in <M>Func
-    made = {n: [] for n in ms}             # argument tuples of the calls made since the last reset
+    E = Expect(pkg, it)
     if len(outs) != len(hist):
         return ["truncated trace"]
     for i, (op, o) in enumerate(zip(hist, outs)):
-        k, m = o["k"], ms.get(op.get("m"))
-        if op["op"] != "resetall" and m is None:
-            if k != "nomethod":
-                errs.append("op %d: unknown method answered %s" % (i, k))
+        if o["k"] == "skipped":
+            break
+        seen = []
+        try:
+            exp = E.op(op, FUEL, seen)
+        except OutOfFuel:
+            continue            # unbounded recursion of user functions: outside the property (Go overflows the stack)
+        same_out(exp, o, "op %d (%s %s)" % (i, op["op"], op.get("m", "")), errs)
+        if o["k"] == "deadlock":
+            break
+        if op["op"] != "call":
             continue
-        if op["op"] == "set":
-            func[m["name"]] = op if op["beh"] != "nil" else None
-        elif op["op"] == "call":
-            vals = packed(m, op)
-            if vals is None:
-                continue
-            f = func[m["name"]]
-            inv = o.get("inv") or []
-            if f is None and not pkg["opts"]["stub-impl"]:
-                if k != "panic" or (m["name"] + "Func") not in o.get("msg", ""):
-                    errs.append("op %d: %sFunc is nil, expected a panic naming it, got %s %r" % (i, m["name"], k, o.get("msg")))
-                if inv:
-                    errs.append("op %d: a user function ran although %sFunc is nil" % (i, m["name"]))
-                continue                     # the template panics before recording (mock_matryer.templ:95-97)
-            made[m["name"]].append(vals)
-            if f is None:
-                if k != "ret" or any(x != 0 for x in (o.get("res") or [])) or len(o.get("res") or []) != len(m["results"]):
-                    errs.append("op %d: stub-impl with nil %sFunc must return zero values, got %s %r" % (i, m["name"], k, o.get("res")))
-                if inv:
-                    errs.append("op %d: a user function ran although %sFunc is nil" % (i, m["name"]))
-                continue
-            if len(inv) != 1 or inv[0]["m"] != m["name"]:
-                errs.append("op %d: %sFunc must run exactly once, ran %r" % (i, m["name"], [x["m"] for x in inv]))
-            elif inv[0]["args"] != vals:
-                errs.append("op %d: %sFunc received %r, the call passed %r" % (i, m["name"], inv[0]["args"], vals))
-            if f["beh"] == "panic":
-                if k != "panicuser":
-                    errs.append("op %d: the user function's panic must propagate, got %s" % (i, k))
-            elif k != "ret" or (o.get("res") or []) != f["res"]:
-                errs.append("op %d: %s returned %r, %sFunc returned %r" % (i, m["name"], o.get("res"), m["name"], f["res"]))
-        elif op["op"] == "calls":
-            if k != "records":
-                errs.append("op %d: %sCalls() answered %s" % (i, m["name"], k))
-                continue
-            got = [[f["v"] for f in rec] for rec in o["l"]]
-            if got != made[m["name"]]:
-                errs.append("op %d: %sCalls() = %r, calls made since the last reset: %r" % (i, m["name"], got, made[m["name"]]))
-            want = [exported(p["name"]) if p["name"] not in (None, "_") and p["name"] == r else None
-                    for p, r in zip(m["params"], m["resolved"])]
-            for rec in o["l"]:
-                for f, w in zip(rec, want):
-                    if w is not None and f["f"] != w:
-                        errs.append("op %d: field %r for parameter whose exported name is %r" % (i, f["f"], w))
-        elif op["op"] in ("resetm", "resetall"):
-            if not pkg["opts"]["with-resets"]:
-                if k != "nomethod":
-                    errs.append("op %d: reset method exists without with-resets" % i)
-                continue
-            if k != "unit":
-                errs.append("op %d: reset answered %s" % (i, k))
-            for n in (ms if op["op"] == "resetall" else [m["name"]]):
-                made[n] = []
+        got = o.get("inv") or []
+        einv, ginv = [x for x in seen if "m" in x], [x for x in got if "m" in x]
+        if [(x["m"], x["args"]) for x in einv] != [(x["m"], x.get("args") or []) for x in ginv]:
+            errs.append("op %d: user functions must run once per call that reaches them, with the call's arguments: expected %r, observed %r" % (
+                i, [(x["m"], x["args"]) for x in einv], [(x["m"], x.get("args") or []) for x in ginv]))
+        en, gn = [x["nested"] for x in seen if "nested" in x], [x["nested"] for x in got if x.get("nested")]
+        if len(en) != len(gn):
+            errs.append("op %d: %d nested operations expected to complete, %d observed" % (i, len(en), len(gn)))
+        for j, (x, y) in enumerate(zip(en, gn)):
+            same_out(x, y, "op %d, nested operation %d of the running function" % (i, j), errs)
     return errs
 
 
@@ -378,28 +443,60 @@ def mock_term(pkg, it):
         cstr(struct_name(pkg, it)), cstr(it["name"]), coq_list(ms), coq_bool(o["skip-ensure"]), coq_bool(o["stub-impl"]), coq_bool(o["with-resets"]))
 
 
+def cargs_term(op):
+    if op["var"] == "none":
+        v = "NoVar"
+    elif op["var"] == "elems":
+        v = "(Elems %s)" % coq_list(str(x) for x in op["elems"])
+    else:
+        v = "(Spread %s)" % ("VNilSlice" if op["nilslice"] else cval(list(op["elems"])))
+    return "{| fixed := %s; var := %s |}" % (coq_list(cval(x) for x in op["fixed"]), v)
+
+
+def nop_term(op):
+    k = op["op"]
+    if k == "call": return "NCall %s %s" % (cstr(op["m"]), cargs_term(op))
+    if k == "calls": return "NCalls %s" % cstr(op["m"])
+    if k == "resetm": return "NResetM %s" % cstr(op["m"])
+    return "NResetAll"
+
+
 def op_term(op):
     k = op["op"]
     if k == "call":
-        if op["var"] == "none":
-            v = "NoVar"
-        elif op["var"] == "elems":
-            v = "(Elems %s)" % coq_list(str(x) for x in op["elems"])
-        else:
-            v = "(Spread %s)" % ("VNilSlice" if op["nilslice"] else cval(list(op["elems"])))
-        return "HCall %s {| fixed := %s; var := %s |}" % (cstr(op["m"]), coq_list(cval(x) for x in op["fixed"]), v)
+        return "HCall %s %s" % (cstr(op["m"]), cargs_term(op))
     if k == "calls":
         return "HCalls %s" % cstr(op["m"])
     if k == "resetm":
         return "HResetM %s" % cstr(op["m"])
     if k == "resetall":
         return "HResetAll"
-    b = {"nil": "BNil", "panic": "BPanic"}.get(op["beh"]) or "(BConst %s)" % coq_list(cval(x) for x in op["res"])
+    nested = coq_list(nop_term(x) for x in op.get("nested") or [])
+    first = coq_bool(op.get("first"))
+    b = "BNil" if op["beh"] == "nil" else "(BPanic %s %s)" % (first, nested) if op["beh"] == "panic" else "(BConst %s %s %s)" % (first, nested, coq_list(cval(x) for x in op["res"]))
     return "HSetFunc %s %s" % (cstr(op["m"]), b)
 
 
+def recs_term(l):
+    return coq_list(coq_list("(%s, %s)" % (cstr(f["f"]), cval(f["v"])) for f in rec) for rec in l)
+
+
+def out_term(o):
+    """The outcome of a nested operation, as a Matryer.out."""
+    k = o["k"]
+    if k == "unit": return "OUnit"
+    if k == "nomethod": return "ONoMethod"
+    if k == "illtyped": return "OIllTyped"
+    if k == "ret": return "(ORet %s)" % coq_list(cval(x) for x in (o.get("res") or []))
+    if k == "panic": return "(OPanicNil %s)" % cstr(o.get("msg", ""))
+    if k == "panicuser": return "OPanicUser"
+    if k == "records": return "(ORecords %s)" % recs_term(o["l"])
+    return "(OPanicNil (B \"<driver: %s>\"))" % k
+
+
 def inv_term(inv):
-    return coq_list("(%s, %s)" % (cstr(x["m"]), coq_list(cval(a) for a in x["args"])) for x in (inv or []))
+    return coq_list(("INest %s" % out_term(x["nested"])) if x.get("nested") else "IInv %s %s" % (cstr(x["m"]), coq_list(cval(a) for a in x.get("args") or []))
+                    for x in (inv or []))
 
 
 def obs_term(o):
@@ -410,13 +507,15 @@ def obs_term(o):
     if k == "ret": return "ObRet %s %s" % (coq_list(cval(x) for x in (o.get("res") or [])), inv_term(o.get("inv")))
     if k == "panic": return "ObPanicNil %s" % cstr(o.get("msg", ""))
     if k == "panicuser": return "ObPanicUser %s" % inv_term(o.get("inv"))
-    if k == "records": return "ObRecords %s" % coq_list(coq_list("(%s, %s)" % (cstr(f["f"]), cval(f["v"])) for f in rec) for rec in o["l"])
-    return "ObPanicNil (B \"<driver: %s>\")" % k
+    if k == "outoffuel": return "ObOutOfFuel %s" % inv_term(o.get("inv"))
+    if k == "records": return "ObRecords %s" % recs_term(o["l"])
+    return "ObDeadlock"
 
 
 def case_term(c, outs):
+    n = next((i + 1 for i, o in enumerate(outs) if o["k"] == "deadlock"), len(outs))     # nothing was run after a deadlock
     return "{| c_mock := %s; c_ops := %s; c_obs := %s |}" % (
-        mock_term(c["pkg"], c["iface"]), coq_list(op_term(o) for o in c["hist"]), coq_list(obs_term(o) for o in outs))
+        mock_term(c["pkg"], c["iface"]), coq_list(op_term(o) for o in c["hist"][:n]), coq_list(obs_term(o) for o in outs[:n]))
 
 
 def describe(c, outs=None):
@@ -444,10 +543,17 @@ def corpus_pkgs():
 
 
 def shrink(binary, c, fails):
-    ops, i = list(c["hist"]), 0
+    """Greedy deletion keeping the failure; a history that deadlocks is first cut behind the deadlock."""
+    key = mock_key(c["pkg"], c["iface"])
+    ops = list(c["hist"])
+    o = run_impl(binary, [{"mock": key, "ops": ops}], watchdog_ms=300)[0]
+    dl = next((i for i, x in enumerate(o) if x["k"] == "deadlock"), None)
+    if dl is not None and fails(dict(c, hist=ops[:dl + 1]), o[:dl + 1]):
+        ops = ops[:dl + 1]
+    i = 0
     while i < len(ops):
         cand = dict(c, hist=ops[:i] + ops[i + 1:])
-        o = run_impl(binary, [{"mock": mock_key(c["pkg"], c["iface"]), "ops": cand["hist"]}])[0]
+        o = run_impl(binary, [{"mock": key, "ops": cand["hist"]}], watchdog_ms=300)[0]
         if fails(cand, o):
             ops = cand["hist"]
         else:
@@ -526,7 +632,7 @@ def check(ctx, only=None):
         return any(x["k"] == "records" and len(x["l"]) >= 2 for x in o)
     distinct = len({json.dumps([mock_term(c["pkg"], c["iface"]), c["hist"]], sort_keys=True) for c, o in zip(cases, outs) if nontrivial(o)})
     hist = {"ops": {}, "outcomes": {}, "params_per_method": {}, "results_per_method": {}, "param_style": {}, "options": {},
-            "types": {}, "option_level": {}, "variadic_methods": 0, "generic_interfaces": 0, "methods": 0, "interfaces": 0}
+            "types": {}, "option_level": {}, "nested_ops_in_installed_funcs": {}, "nested_outcomes": {}, "variadic_methods": 0, "generic_interfaces": 0, "methods": 0, "interfaces": 0}
     for pkg in pkgs:
         key = ",".join(k for k, v in sorted(pkg["opts"].items()) if v) or "none"
         hist["options"][key] = hist["options"].get(key, 0) + 1
@@ -547,9 +653,14 @@ def check(ctx, only=None):
     for c, o in zip(cases, outs):
         for op, x in zip(c["hist"], o):
             hist["ops"][op["op"]] = hist["ops"].get(op["op"], 0) + 1
+            for nop in op.get("nested") or []:
+                hist["nested_ops_in_installed_funcs"][nop["op"]] = hist["nested_ops_in_installed_funcs"].get(nop["op"], 0) + 1
+            for y in x.get("inv") or []:
+                if y.get("nested"):
+                    hist["nested_outcomes"][y["nested"]["k"]] = hist["nested_outcomes"].get(y["nested"]["k"], 0) + 1
             hist["outcomes"][x["k"]] = hist["outcomes"].get(x["k"], 0) + 1
     ctx.write_evidence(gate, sum(len(c["hist"]) for c in cases), distinct,
-                       "seeded histories (40-120 steps: SetFunc/call/Calls()/Reset<M>Calls/ResetCalls) replayed on freshly generated mocks of seeded "
+                       "seeded histories (40-120 steps: SetFunc/call/Calls()/Reset<M>Calls/ResetCalls; 40% of the installed functions use the mock while running: nested Calls() reads, calls - re-entrant ones included - and resets, every top-level step under a watchdog) replayed on freshly generated mocks of seeded "
                        "interfaces under all 8 template-data combinations; evaluations = executed steps; non-trivial = some Calls() read returned "
                        ">= 2 records; distinct by (mock description, history)",
                        [describe(c, o) for c, o in list(zip(cases, outs))[:2]],
